@@ -1,6 +1,20 @@
 """Shared driver for C03 / C04 (bin archive state machine + stream cursors): MC_BinArchive laws, generator ->
 mvh_bin sm-replay, mvh_bin sm-record -> Trace_BinArchive."""
+import json
 import vlib
+
+
+# operations beyond the listed properties (DESIGN.md section 9): a wrong RESULT of one of these is reported as
+# information (NOTE line, evidence counter); a state change or a panic caused by them is still a violation.
+INFO_OPS = {"delete_label", "s_read_label", "get_labels", "find_label", "pointer_destinations"}
+
+
+def informational(ev, pre, got):
+    if ev["op"] not in INFO_OPS or "panic" in got or "panic" in got.get("res", {}):
+        return False
+    if ev["op"] == "delete_label":
+        return got.get("st", {}).get("data") == pre.get("data")
+    return got.get("st") == pre
 
 
 def classify(case, got):
@@ -47,6 +61,11 @@ def run(ctx, focus, profiles):
         unbuildable += summ["unbuildable"]
         for o in out:
             if o["kind"] == "mismatch":
+                if informational(o["case"]["ev"], o["case"]["pre"], o["got"]):
+                    ctx.extra["informational_mismatches"] = ctx.extra.get("informational_mismatches", 0) + 1
+                    if ctx.extra["informational_mismatches"] <= 3:
+                        print("NOTE (beyond the listed properties): %s -> %s" % (json.dumps(o["case"]["ev"]), json.dumps(o["got"].get("res"))))
+                    continue
                 sig = classify(o["case"], o["got"])
                 sig["profile"] = prof
                 ctx.violation(sig, {"case": o["case"], "got": o["got"], "profile": prof})
@@ -69,6 +88,9 @@ def run(ctx, focus, profiles):
             raise vlib.ToolError("trace not consumed: %s" % rep)
         for i in rep[0]["bad"]:
             ev = events[i - 1]
+            if i >= 2 and informational(ev, events[i - 2]["post"], {"res": ev["res"], "st": ev["post"]}):
+                ctx.extra["informational_mismatches"] = ctx.extra.get("informational_mismatches", 0) + 1
+                continue
             sig = {"dir": "impl->spec", "op": ev["op"], "profile": prof}
             if "panic" in ev.get("res", {}):
                 sig["panic"] = ev["res"]["panic"].split(" [")[0]
